@@ -19,6 +19,9 @@ T3 = ("T", (2, 2, 2))
 P, Q = ("p", (3,)), ("q", (3,))
 
 
+MATH = {"exp", "ln", "sin", "cos", "tan", "sinh", "cosh", "tanh", "asin", "atan"}
+
+
 def slices(tier):
     q = tier == "quick"
     L = LIT
@@ -30,6 +33,10 @@ def slices(tier):
         Slice("tensoralg", [F, U, A, B], {"dot", "inner", "outer", "transpose", "tr", "det", "inv", "cofac", "dev", "skew", "sym", "perp"}, 2, zeros=[(2,)], idx=(10,)),
         Slice("cross", [P, Q], {"cross", "dot", "inner", "outer", "neg", "index"}, 2, maxdim=3, idx=(10,), gdim=3, zeros=[(3,)]),
         Slice("complex", [F, U], {"conj", "real", "imag", "abs", "mul", "inner", "outer", "dot", "pow"}, 2, lits=[L["i"], L["two"]], complex_env=True),
+        # elementary functions at their rational points (z = 0 and o = 1 in every environment; f generic: undefined)
+        Slice("math", [("z", ()), ("o", ()), F], MATH | {"mul", "add", "sub"}, 2, fixed={"z": 0, "o": 1}),
+        # zeros that carry free indices of different extents (0*u[i]*w[j]) under binding in either index order
+        Slice("zeros-mixed", [U, ("w", (3,))], {"as_tensor", "index", "outer", "mul", "add"}, 2, idx=(10, 11), zerofi=[((10, 2), (11, 3))], maxdim=3, mikinds=("name",), tiny=True),
         Slice("cond", [F, G], {"lt", "ge", "eq", "ne", "and", "or", "not", "cond", "max", "min", "sign"}, 2, lits=[L["zero"]]),
         Slice("cond3", [F, G], {"lt", "eq", "and", "not", "cond"}, 3),
         Slice("zeros", [F, U], {"mul", "add", "index", "as_tensor", "dot", "inner", "outer", "abs", "conj"}, 2, lits=[L["zero"]], zeros=[(2,), (2, 2)], idx=(10, 11), small=True),
